@@ -5,6 +5,7 @@ namespace Mut
 def Out.map {α β} (f : α → β) : Out α → Out β
   | .done => .done
   | .val v => .val (f v)
+  | .vals vs => .vals (vs.map f)
   | .none => .none
   | .missing => .missing
   | .panic => .panic
@@ -24,6 +25,11 @@ def MOp.map {α β} (f : α → β) : MOp α → MOp β
   | .setKey k x => .setKey k (f x)
   | .setIdx n x => .setIdx n (f x)
   | .orInsert k x => .orInsert k (f x)
+  | .splitOff n => .splitOff n
+  | .drain a b => .drain a b
+  | .extendWithin a b => .extendWithin a b
+  | .resize n x => .resize n (f x)
+  | .retainNonNull => .retainNonNull
 
 /-! ### lists -/
 
@@ -124,8 +130,14 @@ theorem map_eraseIdx' {α β} (f : α → β) (l : List α) (n : Nat) : (l.map f
   | nil => rfl
   | cons a l ih => cases n <;> simp [ih]
 
-theorem arrOp_map {α β} (f : α → β) (xs : List α) (op : MOp α) :
-    arrOp (xs.map f) (op.map f) = (arrOp xs op).map (fun r => (r.1.map f, r.2.map f)) := by
+theorem filter_map_nn {α β} (f : α → β) (na : α → Bool) (nb : β → Bool) (h : ∀ x, nb (f x) = na x) (xs : List α) :
+    (xs.map f).filter (fun v => !nb v) = (xs.filter (fun v => !na v)).map f := by
+  induction xs with
+  | nil => rfl
+  | cons x r ih => simp only [List.map_cons, List.filter_cons, h x]; split <;> simp [ih]
+
+theorem arrOp_map {α β} (f : α → β) (na : α → Bool) (nb : β → Bool) (h : ∀ x, nb (f x) = na x) (xs : List α) (op : MOp α) :
+    arrOp nb (xs.map f) (op.map f) = (arrOp na xs op).map (fun r => (r.1.map f, r.2.map f)) := by
   cases op with
   | push x => simp [arrOp, MOp.map, Out.map]
   | pop =>
@@ -151,6 +163,19 @@ theorem arrOp_map {α β} (f : α → β) (xs : List α) (op : MOp α) :
   | assign x => simp [arrOp, MOp.map]
   | setKey k x => simp [arrOp, MOp.map]
   | orInsert k x => simp [arrOp, MOp.map]
+  | splitOff n =>
+    simp only [arrOp, MOp.map, List.length_map]
+    split <;> simp [Out.map, List.map_take, List.map_drop]
+  | drain a b =>
+    simp only [arrOp, MOp.map, List.length_map]
+    split <;> simp [Out.map, List.map_take, List.map_drop]
+  | extendWithin a b =>
+    simp only [arrOp, MOp.map, List.length_map]
+    split <;> simp [Out.map, List.map_take, List.map_drop]
+  | resize n x =>
+    simp only [arrOp, MOp.map, List.length_map]
+    split <;> simp [Out.map, List.map_take]
+  | retainNonNull => simp [arrOp, MOp.map, Out.map, filter_map_nn f na nb h]
 
 theorem setKey_map {α β} (f : α → β) (k : Key) (x : α) (ms : List (Key × α)) :
     (setKey k x ms).map (fun p => (p.1, f p.2)) = setKey k (f x) (ms.map (fun p => (p.1, f p.2))) := by
@@ -166,9 +191,15 @@ theorem insertKey_map {α β} (f : α → β) (k : Key) (x : α) (ms : List (Key
   simp only [insertKey, lookup_map]
   cases lookup k ms <;> simp [setKey_map]
 
-theorem objOp_map {α β} (f : α → β) (nul : α) (ms : List (Key × α)) (op : MOp α) :
-    objOp (f nul) (ms.map (fun p => (p.1, f p.2))) (op.map f) =
-      (objOp nul ms op).map (fun r => (r.1.map (fun p => (p.1, f p.2)), r.2.map f)) := by
+theorem filter_map_nnM {α β} (f : α → β) (na : α → Bool) (nb : β → Bool) (h : ∀ x, nb (f x) = na x) (ms : List (Key × α)) :
+    (ms.map (fun p => (p.1, f p.2))).filter (fun p => !nb p.2) = (ms.filter (fun p => !na p.2)).map (fun p => (p.1, f p.2)) := by
+  induction ms with
+  | nil => rfl
+  | cons x r ih => simp only [List.map_cons, List.filter_cons, h x.2]; split <;> simp [ih]
+
+theorem objOp_map {α β} (f : α → β) (na : α → Bool) (nb : β → Bool) (h : ∀ x, nb (f x) = na x) (nul : α) (ms : List (Key × α)) (op : MOp α) :
+    objOp nb (f nul) (ms.map (fun p => (p.1, f p.2))) (op.map f) =
+      (objOp na nul ms op).map (fun r => (r.1.map (fun p => (p.1, f p.2)), r.2.map f)) := by
   cases op with
   | clear => simp [objOp, MOp.map, Out.map]
   | objInsert k x =>
@@ -190,6 +221,11 @@ theorem objOp_map {α β} (f : α → β) (nul : α) (ms : List (Key × α)) (op
   | take => simp [objOp, MOp.map]
   | assign x => simp [objOp, MOp.map]
   | setIdx n x => simp [objOp, MOp.map]
+  | splitOff n => simp [objOp, MOp.map]
+  | drain a b => simp [objOp, MOp.map]
+  | extendWithin a b => simp [objOp, MOp.map]
+  | resize n x => simp [objOp, MOp.map]
+  | retainNonNull => simp [objOp, MOp.map, Out.map, filter_map_nnM f na nb h]
 
 /-! ### operations on the target -/
 
@@ -203,26 +239,29 @@ theorem scalarOp_refines (v : DV) (op : MOp DV) (hn : ∀ xs, v ≠ .arrNode xs)
   rename_i k x
   split <;> simp [abs, absM, Out.map]
 
+theorem isNull_abs (x : DV) : (abs x).isNull = x.isNull := by
+  cases x <;> simp [abs, J.isNull, DV.isNull]
+
 theorem applyC_refines (op : MOp DV) (v : DV) :
     abs (DV.applyC op v).1 = (J.applyC (op.map abs) (abs v)).1 ∧
       (DV.applyC op v).2.map abs = (J.applyC (op.map abs) (abs v)).2 := by
   cases v with
   | arrNode xs =>
-    simp only [DV.applyC, J.applyC, promote, abs, absL_eq_map, arrOp_map]
-    cases arrOp xs op <;> simp [abs, absL_eq_map, Out.map]
+    simp only [DV.applyC, J.applyC, promote, abs, absL_eq_map, arrOp_map abs DV.isNull J.isNull isNull_abs]
+    cases arrOp DV.isNull xs op <;> simp [abs, absL_eq_map, Out.map]
   | arrMut xs =>
-    simp only [DV.applyC, J.applyC, promote, abs, absL_eq_map, arrOp_map]
-    cases arrOp xs op <;> simp [abs, absL_eq_map, Out.map]
+    simp only [DV.applyC, J.applyC, promote, abs, absL_eq_map, arrOp_map abs DV.isNull J.isNull isNull_abs]
+    cases arrOp DV.isNull xs op <;> simp [abs, absL_eq_map, Out.map]
   | objNode ms =>
     have e : abs DV.null = J.null := rfl
     simp only [DV.applyC, J.applyC, promote, abs, absM_eq_map, ← map_dedupFirst]
-    rw [← e, objOp_map]
-    cases objOp DV.null (dedupFirst ms) op <;> simp [abs, absM_eq_map, Out.map, map_dedupFirst]
+    rw [← e, objOp_map abs DV.isNull J.isNull isNull_abs]
+    cases objOp DV.isNull DV.null (dedupFirst ms) op <;> simp [abs, absM_eq_map, Out.map, map_dedupFirst]
   | objMut ms =>
     have e : abs DV.null = J.null := rfl
     simp only [DV.applyC, J.applyC, promote, abs, absM_eq_map]
-    rw [← e, objOp_map]
-    cases objOp DV.null ms op <;> simp [abs, absM_eq_map, Out.map]
+    rw [← e, objOp_map abs DV.isNull J.isNull isNull_abs]
+    cases objOp DV.isNull DV.null ms op <;> simp [abs, absM_eq_map, Out.map]
   | null => exact scalarOp_refines .null op (by simp) (by simp) (by simp) (by simp)
   | bool b => exact scalarOp_refines (.bool b) op (by simp) (by simp) (by simp) (by simp)
   | num n => exact scalarOp_refines (.num n) op (by simp) (by simp) (by simp) (by simp)
